@@ -18,39 +18,42 @@ Theorem C15_validated_store_does_not_index_unknown : forall locked n r,
   validate_criteria locked n r = true -> index_panics locked n r = false.
 Proof. exact validated_store_does_not_index_unknown. Qed.
 
-(* C15_no_crash — PARTIAL: holds for well-formed criteria tables; Store::validate does
-   not check the table itself (built-in redefined, implication cycle, more than 64
-   criteria), and those panic in CriteriaMapper::new: known findings F-C15-table-*,
-   witnessed by C15_refuted_* and replayed on the implementation every run. *)
-Theorem C15_no_crash_partial : forall locked shadows t max_end ends r,
-  shadows = false -> Nat.leb (ct_len t) MAX_CRITERIA = true -> ct_acyclic t = true ->
-  load_outcome locked shadows t max_end ends r <> Panics.
-Proof. exact no_crash_partial. Qed.
+(* C15_no_crash: for every store and every set of peer files, loading + going online + resolving never
+   crashes.  Store::validate checks the criteria table itself (built-in redefined, implication cycle, more
+   than 64 criteria) and fetch_single_imported_audit checks a peer's table before building a mapper from it —
+   both facts re-read from the source on every run; those tables used to panic in CriteriaMapper::new
+   (findings F-C15-table-* and F-C15-peer-table-*, repaired by a `fix:` commit) *)
+Theorem C15_no_crash : forall locked shadows t max_end ends r ps,
+  load_outcome locked shadows t max_end ends r ps <> Panics.
+Proof. intros. apply no_crash; reflexivity. Qed.
 
-Theorem C15_refuted_self_implication : load_outcome false false [[2]] 0%Z [] [(SImplies, [2])] = Panics.
+(* the former crash witnesses are refused now *)
+Theorem C15_self_implication_refused : load_outcome false false [[2]] 0%Z [] [(SImplies, [2])] [] = Refused.
 Proof. vm_compute. reflexivity. Qed.
-Theorem C15_refuted_cycle : load_outcome false false [[3]; [2]] 0%Z [] [(SImplies, [3]); (SImplies, [2])] = Panics.
+Theorem C15_cycle_refused : load_outcome false false [[3]; [2]] 0%Z [] [(SImplies, [3]); (SImplies, [2])] [] = Refused.
 Proof. vm_compute. reflexivity. Qed.
-Theorem C15_refuted_builtin_redefined : load_outcome false true [[]] 0%Z [] [] = Panics.
+Theorem C15_builtin_redefined_refused : load_outcome false true [[]] 0%Z [] [] [] = Refused.
 Proof. vm_compute. reflexivity. Qed.
-Theorem C15_refuted_too_many_criteria : load_outcome false false (repeat [] 63) 0%Z [] [] = Panics.
+Theorem C15_too_many_criteria_refused : load_outcome false false (repeat [] 63) 0%Z [] [] [] = Refused.
+Proof. vm_compute. reflexivity. Qed.
+Theorem C15_peer_cycle_refused : load_outcome false false [] 0%Z [] [] [(false, [[3]; [2]])] = Refused.
 Proof. vm_compute. reflexivity. Qed.
 
 (* a project's own wildcard audits ending after the cap are refused at load (C06) *)
-Theorem C15_wildcard_end_cap : forall locked shadows t max_end ends r e,
-  load_outcome locked shadows t max_end ends r <> Refused -> In e ends -> (e <= max_end)%Z.
+Theorem C15_wildcard_end_cap : forall locked shadows t max_end ends r ps e,
+  load_outcome locked shadows t max_end ends r ps <> Refused -> In e ends -> (e <= max_end)%Z.
 Proof. exact wildcard_end_cap. Qed.
 
 Example C15_nonvacuous :
-  load_outcome true false [[1]] 100%Z [50%Z] [(SAudit, [2; 0]); (SLockAudit, [1])] = Proceeds /\
-  load_outcome true false [[1]] 100%Z [50%Z] [(SAudit, [2; 0]); (SLockAudit, [7])] = Refused /\
-  load_outcome false false [[1]] 100%Z [101%Z] [] = Refused.
+  load_outcome true false [[1]] 100%Z [50%Z] [(SAudit, [2; 0]); (SLockAudit, [1])] [] = Proceeds /\
+  load_outcome true false [[1]] 100%Z [50%Z] [(SAudit, [2; 0]); (SLockAudit, [7])] [] = Refused /\
+  load_outcome false false [[1]] 100%Z [101%Z] [] [] = Refused.
 Proof. vm_compute. auto. Qed.
 
 Print Assumptions C15_undefined_reference_refused.
 Print Assumptions C15_every_indexed_site_is_checked.
 Print Assumptions C15_validated_store_does_not_index_unknown.
-Print Assumptions C15_no_crash_partial.
-Print Assumptions C15_refuted_self_implication.
-Print Assumptions C15_refuted_too_many_criteria.
+Print Assumptions C15_no_crash.
+Print Assumptions C15_self_implication_refused.
+Print Assumptions C15_too_many_criteria_refused.
 Print Assumptions C15_wildcard_end_cap.
